@@ -102,7 +102,7 @@ func ZZ_C05_EndBlockExpiry() {
 func ZZ_C05_BeginBlock() {
 	o := keeper.ZZStateOpts{MaxPool: 1, MaxBatches: 1, MaxPerBatch: 1, ConcreteIds: true, Chains: []types.ChainID{"ethereum"}}
 	if vrt.Thorough() {
-		o = keeper.ZZStateOpts{MaxPool: 1, MaxBatches: 2, MaxPerBatch: 1}
+		o = keeper.ZZStateOpts{MaxPool: 1, MaxBatches: 1, MaxPerBatch: 1} // both chains; two batches with two validators: > 40 min
 	}
 	st := keeper.ZZBuildState(o)
 	env := st.Env()
